@@ -44,6 +44,7 @@ impl Agg {
         self.add("nodes", s.nodes);
         self.add("sim_ns", s.sim_ns);
         self.add("lines_out", s.lines_out);
+        self.add("sim_skipped_ns", s.faults.skipped_ns);
         self.add("fault.clock_stall", s.faults.stalls);
         self.add("fault.clock_jump", s.faults.jumps);
         self.add("fault.clock_freeze", s.faults.freezes);
@@ -64,6 +65,7 @@ impl Agg {
         self.add("info_lines_checked", s.infos);
         self.add("mate_announcements_checked", s.mates_checked);
         self.add("pv_moves_replayed", s.pv_moves_checked);
+        self.add("sim_skipped_ns", s.faults.skipped_ns);
         self.add("fault.clock_stall", s.faults.stalls);
         self.add("fault.clock_jump", s.faults.jumps);
         self.add("fault.clock_freeze", s.faults.freezes);
@@ -95,6 +97,8 @@ pub struct RunReport {
     pub harness_errors: Vec<String>,
     pub agg: Agg,
     pub sample: Option<serde_json::Value>,
+    /// digest of what this run observed (C12: transcripts), compared across worker processes
+    pub digest: Option<u64>,
 }
 
 /// Which violation classes count against which property.
